@@ -345,6 +345,52 @@ def r7_every_settable_pin_logs_in(ctx, prog):
             r.ok(f['qname'], site, '%d of %d paths can succeed' % (len(good), len(o.outcomes)), file=f['file'], line=f['line'])
 
 
+def r9_manager_owns_its_state(ctx, prog):
+    """Several SecureDataManager objects live at the same time: one per token, and temporary ones that Token::setSOPIN / setUserPIN build to verify the old PIN.  "Changing a PIN never
+    affects the other user's PIN and never makes existing private objects unreadable" needs each of them to own its key material: the buffers a manager's members point to are
+    allocated by that instance (no function-local static, no global) and released by its destructor."""
+    r = ctx.rule('C04.R9', 'every SecureDataManager owns the buffers its members point to (allocated per instance, freed by its destructor; no static or shared storage)', floor=2, engine='E5 ownership')
+    cls = 'SecureDataManager'
+    ms = [f for f in prog.methods_of(cls) if f.get('body') is not None]
+    ptr_fields = {x['name'] for x in (prog.classes.get(cls, {}).get('fields') or []) if x['type'].rstrip().endswith('*')}
+    n = 0
+    for f in sorted(ms, key=lambda f: f['line']):
+        for x in walk(f['body']):
+            if x.get('k') == 'Decl':
+                for d in x['decls']:
+                    if d.get('static') and not d.get('type', '').startswith('const '):
+                        ctx.analysed(f)
+                        r.violation(f['qname'], 'static local %s' % d['var']['name'], 'a function-local static (%s %s) is shared by every SecureDataManager of the process: the manager of another token, or the temporary one that verifies an old PIN, overwrites what the live manager relies on (its key mask): private objects become unreadable' % (d.get('type'), d['var']['name']),
+                                    file=f['file'], line=x['l'])
+            if x.get('k') == 'Assign' and ((x['a'].get('k') == 'Member' and x['a'].get('base', {}).get('k') == 'This' and x['a']['field'] in ptr_fields) or (x['a'].get('k') == 'Var' and x['a'].get('kind') == 'field' and x['a']['name'] in ptr_fields)):
+                fld = x['a'].get('field') or x['a'].get('name')
+                b = x['b']
+                while b.get('k') in ('Cast', 'Paren') and b.get('e') is not None:
+                    b = b['e']
+                site = 'member %s assigned@%d' % (fld, x['l'])
+                n += 1
+                ctx.analysed(f)
+                if b.get('k') == 'New' or canon(b) in ('NULL', 'NULL_PTR', '0', 'nullptr') or (b.get('k') == 'Call' and '::' in (b.get('callee') or '') and short(b['callee']).startswith('get')):
+                    r.ok(f['qname'], site, canon(b)[:50], file=f['file'], line=x['l'])
+                else:
+                    r.violation(f['qname'], site, 'the member %s is made to point at %s, storage this instance did not allocate: managers that exist side by side (other tokens, the temporary one of a PIN change) then share and overwrite it' % (fld, canon(b)[:50]),
+                                file=f['file'], line=x['l'])
+    # what initObject allocates the destructor releases (an instance-owned buffer that is never freed is the usual first half of "share it instead")
+    d = [f for f in ms if f.get('mkind') == 'dtor' or short(f['qname']).startswith('~')]
+    freed = {canon(x['e']) for f in d for x in walk(f['body']) if x.get('k') == 'Delete'} | {canon(a) for f in d for c in calls(f['body']) for a in c.get('args', []) if a is not None and short(c.get('callee') or '').startswith('recycle')}
+    for f in ms:
+        for x in walk(f['body']):
+            if x.get('k') == 'Assign' and x['b'].get('k') == 'New' and (x['a'].get('field') or x['a'].get('name')) in ptr_fields:
+                fld = x['a'].get('field') or x['a'].get('name')
+                site = 'member %s released by the destructor' % fld
+                if fld in freed:
+                    r.ok(cls + '::~' + cls, site, 'delete %s' % fld, file=f['file'], line=x['l'])
+                else:
+                    r.violation(cls + '::~' + cls, site, 'the buffer allocated for %s at line %s is not released by the destructor: either it leaks key material or it is meant to outlive the instance (shared)' % (fld, x['l']), file=f['file'], line=x['l'])
+    if n == 0:
+        r.undecided(cls, 'pointer members', 'no assignment to a pointer member found', file='', line=0)
+
+
 def run(ctx):
     prog = ctx.prog('ossl-file')
     r1_roles(ctx, prog)
@@ -357,6 +403,7 @@ def run(ctx):
     r7_every_settable_pin_logs_in(ctx, prog)
     from rules import c07
     c07.r6_reauthenticate(ctx, prog, rule_id='C04.R8')
+    r9_manager_owns_its_state(ctx, prog)
 
 
 MUTANTS = [
